@@ -2394,6 +2394,10 @@ WouldBeEqualToAfterPutOrRemove(const HashtableBase & rhs, const KeyType & key, c
       else
       {
          if (rhs.GetNumItems() != (this->GetNumItems()+1)) return false;  // rhs can't be our post-insert-state unless it is exactly one larger than (this)
+
+         const ValueType * hisVal = rhs.Get(key);
+         if ((hisVal == NULL)||(!(*hisVal == *optValue))) return false;  // rhs can't be our post-insert-state unless it has our new value associated with (key)
+
          return rhs.AreKeysAndValuesASupersetOf(*this, considerOrdering);
       }
    }
